@@ -16,36 +16,80 @@ P = {'id': 'C18',
               'reduce_error_surfaces',
               'stream_prefix',
               'stream_complete',
-              'collector_order'],
+              'collector_order',
+              'parallel_map_is_map',
+              'parallel_for_each_visits_once',
+              'fiber_pool_bounded',
+              'reduce_chunks_partition',
+              'parallel_reduce_is_fold',
+              'parallel_reduce_error_surfaces',
+              'pipeline_error_surfaces',
+              'pipeline_order_preserved',
+              'process_batch_is_map',
+              'two_stage_composes',
+              'batch_collector_partition',
+              'collector_timeout_not_early',
+              'executor_conservation',
+              'executor_counters',
+              'executor_capacity_bound',
+              'submit_admission',
+              'submit_race_rejects',
+              'is_idle_characterised',
+              'is_idle_window_exists',
+              'global_reduce_is_fold',
+              'global_reduce_chunks_partition',
+              'global_reduce_error_surfaces'],
  'trusted': ['modelled (M+S): src/concurrency/work_stealing.rs WorkStealingQueue::{push_local, pop_local, steal, balance, len} and '
              'WorkStealingExecutor::{submit, find_task, one worker_loop iteration incl. the periodic balance, total_queued, is_idle} with every queue '
-             'operation one atomic step; the index-tagged result collection of FiberPool::{parallel_map, spawn_batch, parallel_reduce}, '
-             'concurrency::{parallel_map, join_all}, Pipeline::process_batch; Pipeline::execute_stream as stage processes over FIFO channels; '
-             'BatchCollector::{add, flush, check_timeout}',
-             'spec-only cells (direct oracle, no mechanism model): the running executor on current-thread and multi-thread tokio runtimes, '
-             'FiberPool::parallel_for_each, concurrency::parallel_reduce, Pipeline::execute_single/execute_two_stage, CooperativeUtils::*, '
-             'YieldingIterator, FiberIoUtils::*, AsyncMemoryBlobStore::put_batch/get_batch; panicking stage functions',
-             'hook (repo commit `hook: paused WorkStealingExecutor ...`, cfg zipora_verif, add-only): verif_new_paused / verif_find_task / verif_balance '
-             'let the harness drive the real submit/find_task/balance in enumerated interleavings; without the hook that cell is skipped',
-             'not modelled: tokio scheduling and timers, bounded channel capacities (they only remove schedules), try_lock failure on the global queue '
-             '(the worker skips that step), memory orderings of the statistics counters, the instant between a pop and active_tasks += 1'],
+             'operation one atomic step, and (ModelExec.v) the same executor with submit() split into its three critical sections for any number of '
+             'submitting threads, the worker loop split into find / active_tasks += 1 / execute / total_executed += 1 / active_tasks -= 1 / balance check, '
+             'and is_idle() over the real counters; src/concurrency/fiber_pool.rs (ModelFiber.v) FiberPool::spawn as a state machine over the semaphore '
+             '(spawn / acquire / body / finish, bodies that return Ok, Err or panic, the statistics counters as written), parallel_map / parallel_for_each '
+             '(handles awaited in index order with `?`), parallel_reduce (chunk_size = max(1, len / max(1, max_workers)), chunks(), try_join_all, final fold); '
+             'the index-tagged result collection of concurrency::{parallel_map, join_all}, FiberPool::spawn_batch; concurrency::parallel_reduce (ModelGlobalPar.v: '
+             'chunk_size = ceil(len / num_cpus), one task per chunk, join_all, final fold); src/concurrency/pipeline.rs (ModelPipe.v) '
+             'Pipeline::process_batch (both paths, error identities, statistics as written), execute_single, execute_two_stage, execute_stream as stage '
+             'processes over FIFO channels with per-item outcomes Ok / Err(e) / timeout / panic and the join loop (first error in stage order), '
+             'BatchCollector::{add, flush, check_timeout} with a clock and check_timeout split into its two critical sections',
+             'spec-only cells (direct oracle, no mechanism model): the running executor on current-thread and multi-thread tokio runtimes, one queue under '
+             'OS threads, BatchCollector with its background timeout checker on two threads, CooperativeUtils::*, '
+             'YieldingIterator, FiberIoUtils::*, AsyncMemoryBlobStore::put_batch/get_batch; panicking stage functions in process_batch / execute_single '
+             '(the panic propagates to the caller)',
+             'hook (repo commit `hook: paused WorkStealingExecutor ...`, cfg zipora_verif, add-only): verif_new_paused / verif_find_task / verif_balance / '
+             'verif_queue_lens let the harness drive the real submit/find_task/balance in enumerated interleavings and see where submit put a task; '
+             'without the hook that cell is skipped',
+             'not modelled: tokio scheduling and timers (the FiberPool and pipeline theorems quantify over all schedules of the model steps instead), '
+             'bounded channel capacities (they only remove schedules), try_lock failure on the global queue (the worker skips that step), memory orderings of '
+             'the statistics counters, total_queued() as a non-atomic sum over the queue locks (it can only over-count a task that balance() moves meanwhile)'],
  'assumptions': ['each queue operation is atomic (critical sections of std mutexes); atomics are sequentially consistent',
-                 'agreement of model and code is established on the generated histories only',
-                 'a task that has not run after 2 s without any progress of any task is counted as never run'],
- 'level_text': 'Machine-checked Coq theorems about an exact Gallina model of the work-stealing queue and executor: for every worker count, capacity, '
-               'priority/stealability mix and every interleaving of submit / pop_local / global pop / steal / balance / finish, queued + running + executed '
-               'is exactly the multiset of accepted tasks (no loss, no duplication), queues stay in priority order, and - for the repaired pop_local - no task '
-               'can be parked where no worker looks: from every reachable state a continuation of worker steps executes every accepted task and reaches '
-               'is_idle; with refutation theorems for the pinned pop_local whose numbers (51 of 202 tasks never run) are reproduced by the real pre-fix code. '
-               'Ordered collection: for every completion order parallel_map returns the sequential result, a failing item yields Err, chunked reduce equals '
-               'the sequential fold for monoids, execute_stream delivers a prefix of the sequential result under every interleaving and the complete result '
-               'whenever it returns Ok, BatchCollector neither loses nor reorders items. The model is tied to the code by replaying queue histories, '
-               'hook-driven executor histories (all interleavings of small shape), single-worker execution orders, submissions across the 10000 global '
-               'limit and collection results in Coq. The running executor, for_each and the yield/aio helpers are decided by a counting oracle only (S-only).',
+                 'agreement of model and code is established on the generated histories only (FiberPool and pipeline: on a current-thread runtime, '
+                 'where the order of execution is deterministic; tokio\'s semaphore hands out permits in FIFO order)',
+                 'a task that has not run after 2 s without any progress of any task is counted as never run',
+                 'BatchCollector clock cases are compared with the model only when the run was not stalled (a 12 ms margin around the 25 ms batch timeout)'],
+ 'level_text': 'Machine-checked Coq theorems about exact Gallina models of the work-stealing queue and executor, the fiber pool and the pipeline. '
+               'Executor: for every worker count, capacity, priority/stealability mix and every interleaving of submit / pop_local / global pop / steal / '
+               'balance / finish - also at the granularity of single critical sections and counter updates, with several threads racing inside submit() - '
+               'queued + held + executed is exactly the multiset of accepted tasks (no loss, no duplication), queues stay in priority order and within their '
+               'capacity, the statistics counters mean what they say, and - for the repaired pop_local - no task can be parked where no worker looks: from '
+               'every reachable state a continuation of worker steps executes every accepted task and reaches is_idle (with refutation theorems for the '
+               'pinned pop_local whose numbers, 51 of 202 tasks never run, are reproduced by the real pre-fix code); is_idle() is characterised exactly, '
+               'including the window in which it is true too early. FiberPool: for every schedule of the semaphore-bounded fibers parallel_map returns map f xs '
+               'in input order or Err, every body runs exactly once (also behind a failed one), never more than max_fibers bodies are in flight, the pool cannot '
+               'deadlock, the chunks of parallel_reduce partition the input for every length / worker count and the chunked reduce equals the sequential fold '
+               'for monoids. Pipeline: process_batch returns one result per input in order or the error of the first failing item, execute_stream delivers a '
+               'prefix of the sequential result under every interleaving, returns Err whenever any stage fails, times out or panics on any item (the error of '
+               'the lowest failed stage, a genuine one) and the complete result whenever it returns Ok; BatchCollector neither loses nor reorders items under any '
+               'history of add / flush / timeout checks, also with concurrent checkers, and never flushes early. The models are tied to the code by replaying '
+               'queue histories, hook-driven executor histories (all interleavings of small shape, with is_idle and queue-length observers), single-worker '
+               'execution orders with the counters, fiber-pool histories with gated bodies (statistics and finished handles after every step), '
+               'parallel_map/for_each/reduce execution orders, call traces and statistics, process_batch / execute_single / execute_stream results with error '
+               'identities and statistics, and BatchCollector histories against the real clock, all evaluated in Coq. The running executor, one queue under OS '
+               'threads, the collector with its background checker and the yield/aio helpers are decided by a counting oracle only (S-only).',
  'level_note': 'Trusted: Coq kernel + vm_compute; hand-written model; atomicity of the mutex-protected queue operations; harness generators and counting oracle; '
                'tokio is not modelled.',
  'technique': 'Coq proof by induction over histories (Permutation invariants, sortedness invariant, measure argument for draining, schedule construction for '
-              'reachability of completion, prefix invariants with history variables for the stream); model/implementation differential check on operation '
-              'histories by vm_compute; counting oracle on the real executor and pools',
+              'reachability of completion, prefix invariants with history variables for the stream, counting invariants and a potential function for the '
+              'semaphore state machine, simulation of the detailed stream model by the abstract one, refinement of Model.submit by the split submit); '
+              'model/implementation differential check on operation histories by vm_compute; counting oracle on the real executor and pools',
  'explanation': 'Unbounded theorems for the queue/executor/collection/stream models; differential check of the models against the code; oracle for the running system.',
  'shard_timeout': 900}
